@@ -3,7 +3,7 @@
 seeded change under /verif/seeded/, each applied to a scratch worktree of /repo (never to /repo
 itself), several in parallel.  Writes /verif/seeded/RESULTS.json.
 
-usage: tools/mutest.py [--tier quick|thorough] [--jobs N] [--only C01-m1,C02-m3] [--prop-override C19=C01]
+usage: tools/mutest.py [--tier quick|thorough] [--seed S] [--jobs N] [--only C01-m1,C02-m3] [--prop-override C19=C01]
 """
 import json, os, subprocess, sys, glob, shutil, time
 from concurrent.futures import ThreadPoolExecutor
@@ -19,6 +19,7 @@ while i < len(args):
     if args[i] == "--tier": tier = args[i+1]; i += 2
     elif args[i] == "--jobs": jobs = int(args[i+1]); i += 2
     elif args[i] == "--only": only = set(args[i+1].split(",")); i += 2
+    elif args[i] == "--seed": os.environ["VERIF_SEED"] = args[i+1]; i += 2
     elif args[i] == "--also":
         # --also C19-m1=C01  : additionally run another property's check on a mutant
         k, v = args[i+1].split("="); extra_props.setdefault(k, []).append(v); i += 2
@@ -69,6 +70,15 @@ def run_one(m):
             lines = [l for l in r.stdout.splitlines() if l.startswith(("VIOLATION", "INCONCLUSIVE", "OK", "KNOWN"))]
             detail = [l for l in r.stderr.splitlines() if l.startswith("  ")][:2]
             res[pr] = {"exit": r.returncode, "detected": r.returncode == 1, "lines": lines[:3], "detail": [x[:300] for x in detail], "wall_s": round(time.time() - t0, 1)}
+            # how many monitored cases fired (fragile detections have tiny counts)
+            try:
+                import hashlib
+                suffix = "-alt-" + hashlib.sha1(d.encode()).hexdigest()[:8]
+                ev = json.load(open(os.path.join(VERIF, "run", "alt" + suffix, "evidence", pr + ".json")))
+                res[pr]["violating_cases"] = ev.get("violations")
+                res[pr]["violation_signatures"] = ev["coverage"].get("violation_signatures")
+            except Exception:
+                pass
         subprocess.check_call(["git", "-C", d, "checkout", "-q", "--", "."])
         subprocess.run(["git", "-C", d, "clean", "-fdq"])
         return name, res
@@ -85,7 +95,8 @@ out = VERIF + "/seeded/RESULTS.json"
 old = {}
 if os.path.exists(out):
     old = json.load(open(out))
-old.setdefault(tier, {}).update(results)
+key = tier if os.environ.get("VERIF_SEED", "1") == "1" else "%s-seed%s" % (tier, os.environ["VERIF_SEED"])
+old.setdefault(key, {}).update(results)
 old["base_commit"] = head[:10]
 json.dump(old, open(out, "w"), indent=1, sort_keys=True)
 det = sum(1 for r in results.values() if isinstance(r, dict) and any(isinstance(v, dict) and v.get("detected") for v in r.values()))
